@@ -151,6 +151,10 @@ func runC17(c *Ctx) {
 			if cycles <= 100 && r.Chance(1, 6) {
 				rounds = r.Range(255, 300) // more rounds than fit in a byte
 			}
+			if cycles <= 10 && cfg.CoreSize <= 1000 && r.Chance(1, 6) {
+				rounds = 65536 + r.Intn(5000) // more rounds than fit in 16 bits (a few seconds on a small core)
+				c.Inc("invocations_with_more_than_65535_rounds")
+			}
 			args = append(args, "-r", strconv.Itoa(rounds))
 			flagset += "-r"
 		}
@@ -162,6 +166,12 @@ func runC17(c *Ctx) {
 				if fixed < 1 {
 					fixed = 1
 				}
+			}
+			if r.Chance(1, 10) {
+				// a position is a core address: one at or beyond the core size names the cell it is congruent to
+				// (the core size itself names cell 0 - and is not the "0 = random" default)
+				fixed = cfg.CoreSize*r.Range(1, 2) + []int{0, 0, 1, cfg.Length, cfg.CoreSize / 2}[r.Intn(5)]
+				c.Inc("fixed_positions_at_or_beyond_the_core_size")
 			}
 			args = append(args, "-F", strconv.Itoa(fixed))
 			flagset += "-F"
